@@ -110,6 +110,30 @@ def run_c19(prop, tier):
                 if tier == "quick" and k in ("meta-set",) and not label.endswith(("=null", '="x"', "=-1")):
                     continue
                 jobs.append((name, label, files))
+        # pairs of single corruptions that touch different files of the same trace (thorough tier)
+        if tier != "quick":
+            for name, tr in traces.items():
+                basef = mutate.files_of(tr)
+                singles = []
+                for (label, files, verdict) in mutate.operators(tr, "quick", for_c19=True):
+                    k = label.split(":")[0]
+                    if k in ("jsize", "tojumbo", "nopayload", "jdata", "phantom-payload", "meta-shape", "meta-val", "model", "nojumbo", "swap") or \
+                            (k == "flags" and label.endswith(("0x10", "0x1f", "0xff"))) or (k == "meta-set" and label.endswith(("=null", "=-1"))):
+                        changed = [p for p in files if files.get(p) != basef.get(p)] + [p for p in basef if p not in files]
+                        if len(changed) == 1:
+                            singles.append((label, changed[0], files))
+                for i in range(len(singles)):
+                    for j in range(i + 1, len(singles)):
+                        a, b = singles[i], singles[j]
+                        if a[1] == b[1]:
+                            continue
+                        # one stream.obs corruption combined with one stream.json corruption
+                        if a[1].endswith(".obs") == b[1].endswith(".obs"):
+                            continue
+                        f = dict(basef)
+                        f[a[1]] = a[2][a[1]]
+                        f[b[1]] = b[2][b[1]]
+                        jobs.append((name, "pair:%s+%s" % (a[0], b[0]), f))
         # grammar-bounded streams after a valid prefix
         atoms = grammar_atoms()
         depth = 2 if tier == "quick" else 3
